@@ -6,6 +6,7 @@ import (
 	"fmt"
 	"os"
 	"path/filepath"
+	"runtime"
 	"sort"
 	"strconv"
 	"strings"
@@ -63,6 +64,19 @@ func main() {
 		i := strings.Index(kv, "=")
 		os.Setenv(kv[:i], kv[i+1:])
 	}
+	// a runaway engine must not take the machine down: give up (engine error,
+	// never a violation) beyond 12 GiB
+	go func() {
+		for {
+			time.Sleep(2 * time.Second)
+			var ms runtime.MemStats
+			runtime.ReadMemStats(&ms)
+			if ms.HeapAlloc > 12<<30 {
+				fmt.Fprintln(os.Stderr, "ENGINE-ERROR: memory limit exceeded (12 GiB)")
+				os.Exit(2)
+			}
+		}
+	}()
 	if len(os.Args) < 2 {
 		fmt.Fprintln(os.Stderr, "usage: gvc check <PROP> [quick|thorough] | gvc unit <pattern> | gvc list")
 		os.Exit(2)
@@ -315,6 +329,7 @@ func runCheck(repo, verif, prop, tier string, keep bool) int {
 	nCover, nCovered := 0, 0
 	unreachable := []string{}
 	reachableRet, hasRet := map[string]bool{}, map[string]bool{}
+	kfSeen := map[string]string{} // finding id -> KNOWN-FINDING line ("" while only discharged canaries were seen)
 	var solverMs int64
 	for _, r := range results {
 		if r.Missing {
@@ -373,10 +388,13 @@ func runCheck(repo, verif, prop, tier string, keep bool) int {
 					engineErrs = append(engineErrs, fmt.Sprintf("contract carve-out %s has no open entry in known_findings.json", o.KF))
 					continue
 				}
+				// a finding reproduces when at least one of its canaries fails
 				if o.Status == "unsat" || o.Status == "unsat1" {
-					fmt.Printf("NOTE: known finding %s no longer reproduces (canary %s discharged)\n", o.KF, name)
-				} else {
-					kfLines = append(kfLines, fmt.Sprintf("KNOWN-FINDING: property=%s %s %s: %s", prop, kf.ID, name, kf.What))
+					if _, seen := kfSeen[kf.ID]; !seen {
+						kfSeen[kf.ID] = ""
+					}
+				} else if kfSeen[kf.ID] == "" {
+					kfSeen[kf.ID] = fmt.Sprintf("KNOWN-FINDING: property=%s %s %s: %s", prop, kf.ID, name, kf.What)
 				}
 				continue
 			}
@@ -407,6 +425,18 @@ func runCheck(repo, verif, prop, tier string, keep bool) int {
 				}
 				violLines = append(violLines, line)
 			}
+		}
+	}
+	var kfIDs []string
+	for id := range kfSeen {
+		kfIDs = append(kfIDs, id)
+	}
+	sort.Strings(kfIDs)
+	for _, id := range kfIDs {
+		if kfSeen[id] == "" {
+			fmt.Printf("NOTE: known finding %s no longer reproduces (all its canaries discharge); mark it fixed in known_findings.json\n", id)
+		} else {
+			kfLines = append(kfLines, kfSeen[id])
 		}
 	}
 	for k := range hasRet {
